@@ -74,6 +74,55 @@ pub fn valid_case(cx: &mut Ctx, n: u64, case: &Value) {
                             else { false };
                         if ok { cx.ok("reported_error_is_real"); } else { cx.bad("C14", "reported_error_is_real", case, json!({"error": e, "all_errors": errs})); }
                     }
+                    // the same polygon with an EMPTY interior ring put in front of the holes (an empty ring has no point: same validity),
+                    // and every reported error must then name the rings one position further on
+                    if p.exterior().0.len() >= 1 {
+                        let mut hs = vec![geo::LineString::<f64>::new(vec![])];
+                        hs.extend(p.interiors().iter().cloned());
+                        let pe = geo::Polygon::new(p.exterior().clone(), hs);
+                        let re = guard(|| (pe.is_valid(), pe.validation_errors().iter().map(|e| format!("{e:?}")).collect::<Vec<_>>()));
+                        let sh = |v: &Vec<i64>| -> Vec<i64> { v.iter().map(|i| if *i >= 1 { *i + 1 } else { *i }).collect() };
+                        let shp = |v: &Vec<(i64, i64)>| -> Vec<(i64, i64)> { v.iter().map(|(a, b)| (if *a >= 1 { *a + 1 } else { *a }, if *b >= 1 { *b + 1 } else { *b })).collect() };
+                        let (few2, slf2, notc2, line2, area2) = (sh(&few), sh(&slf), sh(&notc), shp(&line), shp(&area));
+                        let ok = match &re {
+                            Ok((v2, errs2)) => *v2 == want && errs2.is_empty() == want && errs2.iter().all(|e| {
+                                let rings = ring_no(e);
+                                let in_pair = |set: &Vec<(i64, i64)>| rings.len() == 2 && set.iter().any(|(a, b)| (*a == rings[0] && *b == rings[1]) || (*a == rings[1] && *b == rings[0]));
+                                if e.starts_with("TooFewPointsInRing") { few2.contains(&rings[0]) || slf2.contains(&rings[0]) }
+                                else if e.starts_with("SelfIntersection") { slf2.contains(&rings[0]) }
+                                else if e.starts_with("InteriorRingNotContained") { notc2.contains(&rings[0]) }
+                                else if e.starts_with("IntersectingRingsOnALine") { in_pair(&line2) }
+                                else if e.starts_with("IntersectingRingsOnAnArea") { in_pair(&area2) }
+                                else { false }
+                            }),
+                            Err(_) => false,
+                        };
+                        if ok { cx.ok("polygon_with_empty_interior_ring"); } else { cx.bad("C14", "polygon_with_empty_interior_ring", case, json!({"got": format!("{re:?}"), "want_valid": want, "errors_without_the_empty_ring": errs})); }
+                    }
+                    // the shell ring of a hole-free case used as the HOLE of a large square (alone, and behind an empty interior ring):
+                    // its per-ring defects (too few points, self-intersection) must be reported for exactly that interior ring
+                    if p.interiors().is_empty() && !p.exterior().0.is_empty() && p.exterior().0.iter().all(|c| c.x.abs() < 90.0 && c.y.abs() < 90.0) {
+                        let big = geo::LineString::from(vec![(-100.0, -100.0), (100.0, -100.0), (100.0, 100.0), (-100.0, 100.0), (-100.0, -100.0)]);
+                        for lead_empty in [false, true] {
+                            let mut hs = vec![];
+                            if lead_empty { hs.push(geo::LineString::<f64>::new(vec![])); }
+                            hs.push(p.exterior().clone());
+                            let pp = geo::Polygon::new(big.clone(), hs);
+                            let id = if lead_empty { 2 } else { 1 };
+                            let r = guard(|| (pp.is_valid(), pp.validation_errors().iter().map(|e| format!("{e:?}")).collect::<Vec<_>>()));
+                            let ok = match &r {
+                                Ok((v2, errs2)) => *v2 == want && errs2.is_empty() == want && errs2.iter().all(|e| {
+                                    let rings = ring_no(e);
+                                    (e.starts_with("TooFewPointsInRing") && rings == vec![id] && (few.contains(&0) || slf.contains(&0)))
+                                        || (e.starts_with("SelfIntersection") && rings == vec![id] && slf.contains(&0))
+                                }),
+                                Err(_) => false,
+                            };
+                            if ok { cx.ok("ring_as_hole_of_a_large_square"); } else {
+                                cx.bad("C14", "ring_as_hole_of_a_large_square", case, json!({"what": if lead_empty { "interiors [EMPTY, ring]" } else { "interiors [ring]" }, "got": format!("{r:?}"), "want_valid": want, "ring_errors_as_shell": errs}));
+                            }
+                        }
+                    }
                     // the other entry points of the Validation trait: check_validation (first error or Ok) and visit_validation
                     {
                         let first = guard(|| p.check_validation().err().map(|e| format!("{e:?}")));
